@@ -1,6 +1,7 @@
 """SymDT: datetime proxy (subclass of datetime.datetime, value = z3 Int microseconds since EPOCH, UTC)."""
 from __future__ import annotations
 
+import calendar
 import datetime
 
 import z3
@@ -127,7 +128,31 @@ class SymDT(datetime.datetime):
         return _trap("replace")(self)
 
 
-for _n in ("timestamp", "strftime", "isoformat", "utctimetuple", "timetuple", "date", "time", "timetz", "weekday",
+class SymTimeTuple:
+    """what SymDT.utctimetuple() returns: only calendar.timegm() can consume it (whole seconds since 1970, UTC)"""
+    def __init__(self, e):
+        self.e = e
+
+
+def _sym_utctimetuple(self):
+    return SymTimeTuple(self._e)
+
+
+_EPOCH_UNIX_US = int((EPOCH - datetime.datetime(1970, 1, 1, tzinfo=UTC)).total_seconds()) * 10 ** 6
+_orig_timegm = calendar.timegm
+
+
+def _timegm(t):
+    if isinstance(t, SymTimeTuple):
+        from .num import SymInt
+        return SymInt((t.e.z() + _EPOCH_UNIX_US) / 1000000)       # z3 integer division: floor for a positive divisor
+    return _orig_timegm(t)
+
+
+calendar.timegm = _timegm
+SymDT.utctimetuple = _sym_utctimetuple
+
+for _n in ("timestamp", "strftime", "isoformat", "timetuple", "date", "time", "timetz", "weekday",
            "isoweekday", "isocalendar", "toordinal", "ctime", "__reduce__", "__reduce_ex__"):
     setattr(SymDT, _n, _trap(_n))
 for _n in ("year", "month", "day", "hour", "minute", "second", "microsecond"):
